@@ -88,7 +88,16 @@ func Refresh(data map[string]string) error {
 		case *AsyncLogger:
 			base = &config.LoggerBase
 			ref = &config.AppenderRefs
-		default: // for linter
+		case *DiscardLogger:
+			return &config.LoggerBase, nil
+		case *ConsoleLogger:
+			return &config.LoggerBase, nil
+		case *FileLogger:
+			return &config.LoggerBase, nil
+		case *RollingFileLogger:
+			return &config.LoggerBase, nil
+		default:
+			return nil, errutil.Explain(nil, "unsupported logger type %T", config)
 		}
 		for _, r := range ref.AppenderRefs {
 			appender, ok := cAppenders[r.Ref]
